@@ -88,6 +88,27 @@ TABLE = {
     MD + "index:index#3": {"class": "guard", "need": [["len", "<=", "len(tail)"]], "why": "tail[len..]"},
     "WebRtcDialerState::register_response|assert:Overflow:Overflow#1": {"class": "api", "need": [["Try>::branch(Result::map_err(decode::usize(remaining)))", "is", "Continue"]],
         "why": "remaining.len() - tail.len(): tail is the suffix returned by unsigned_varint::decode::usize(&remaining)"},
+    "WebRtcDialerState::register_response|precond:advance#1": {"class": "api", "need": [["Try>::branch(Result::map_err(decode::usize(remaining)))", "is", "Continue"]],
+        "why": "advance(len_size) with len_size = remaining.len() - tail.len() <= remaining.len() (tail is a suffix of remaining)"},
+    "LengthDelimited::poll_write_buffer|precond:advance#1": {"class": "api", "need": [],
+        "why": "write path: advance(n) with n = bytes the inner poll_write accepted from &write_buffer (n <= len by the AsyncWrite contract)"},
+    # webrtc data-channel substream (feature webrtc, analysed in the `all` configuration)
+    "Substream as AsyncRead::poll_read|index:index#1": {"class": "guard", "cfg": "all", "need": [["0", "<", "Buf>::remaining(self.read_buffer)"]],
+        "why": "read_buffer[..num_bytes] with num_bytes = min(read_buffer.remaining(), buf.remaining())"},
+    "Substream as AsyncRead::poll_read|precond:put_slice#1": {"class": "guard", "cfg": "all", "need": [["0", "<", "Buf>::remaining(self.read_buffer)"]],
+        "why": "put_slice of num_bytes <= buf.remaining() bytes (min)"},
+    "Substream as AsyncRead::poll_read|precond:advance#1": {"class": "guard", "cfg": "all", "need": [["0", "<", "Buf>::remaining(self.read_buffer)"]],
+        "why": "advance(num_bytes) with num_bytes <= read_buffer.remaining() (min)"},
+    "Substream as AsyncRead::poll_read|precond:put_slice#2": {"class": "guard", "cfg": "all", "need": [["ReadBuf::remaining(buf)", ">=", "len(payload)"]],
+        "why": "whole payload fits the caller's buffer"},
+    "Substream as AsyncRead::poll_read|index:index#2": {"class": "guard", "cfg": "all", "need": [["ReadBuf::remaining(buf)", "<", "len(payload)"]],
+        "why": "payload[..remaining] with remaining = buf.remaining() < payload.len()"},
+    "Substream as AsyncRead::poll_read|precond:put_slice#3": {"class": "guard", "cfg": "all", "need": [["ReadBuf::remaining(buf)", "<", "len(payload)"]],
+        "why": "exactly buf.remaining() bytes"},
+    "Substream as AsyncRead::poll_read|index:index#3": {"class": "guard", "cfg": "all", "need": [["ReadBuf::remaining(buf)", "<", "len(payload)"]],
+        "why": "payload[remaining..] with remaining < payload.len()"},
+    "NoiseContext::get_remote_peer_id|precond:split_at#1": {"class": "guard", "cfg": "all", "need": [["2", "<=", "len(reply)"]],
+        "why": "split_at(2) behind reply.len() >= 2"},
     "WebRtcDialerState::register_response|precond:split_to#1": {"class": "guard", "need": [["len", "<=", "len(tail)"]],
         "why": "after advance(len_size) remaining == tail, and len <= tail.len()"},
     "listener_select::decode_multistream_message|assert:Overflow:Overflow#1": {"class": "api", "need": [["Try>::branch(Result::map_err(decode::usize(data)))", "is", "Continue"]],
@@ -136,6 +157,7 @@ ALLOC_TABLE = {
         "why": "remote-chosen length compared with the codec maximum whenever one is configured (C04 R04.1)"},
     "NoiseContext::read_handshake_message::{closure#0}|alloc:BytesMut::zeroed#2": {"type": "u16", "why": "handshake message length read as u16"},
     "NoiseContext::read_handshake_message::{closure#0}|alloc:BytesMut::resize#1": {"why": "message.len() + 200 with message = zeroed(size as usize), size: u16 (see zeroed#2)"},
+    "NoiseContext::get_remote_peer_id|alloc:vec::from_elem#1": {"type": "u16", "why": "reply length prefix read as u16 (webrtc noise reply)"},
     "UnsignedVarint::encode|alloc:BytesMut::with_capacity#1": {"need": [["MAX", ">=", "len(payload)"]], "why": "local payload"},
     "PublicKey::to_protobuf_encoding|alloc:Vec::with_capacity#1": {"why": "encoded_len of a local key"},
     "Message::encode|alloc:BytesMut::reserve#1": {"why": "encode path, constant-length message"},
